@@ -161,9 +161,30 @@ def run(ctx):
             pr = sched.asg_arg(c, "priority")
             ops = sched.asg_arg(c, "ops")
             opsr = norm.U(norm.subst(ops, _loopenv(jl))) if ops is not None else None
-            ok = ok_nest and pid is not None and norm.is_name(pid, pv) and pr is not None and norm.U(pr) == f"{jv}.priority" and opsr == f"{jv}.ops"
-            d = (f"loops: `{stmt_text(pl)}` > `{stmt_text(ql)}` (source {qsrc}) > `{stmt_text(jl)}`; pool_id={norm.U(pid) if pid is not None else None}; "
-                 f"priority={norm.U(pr) if pr is not None else None}; ops={opsr}")
+            # the three loop variables keep their meaning inside the loops: nothing in the pool loop binds them again
+            rebound = []
+            for n in ast.walk(pl):
+                tg = []
+                if isinstance(n, ast.Assign):
+                    tg = n.targets
+                elif isinstance(n, (ast.AugAssign, ast.AnnAssign)):
+                    tg = [n.target]
+                elif isinstance(n, (ast.For, ast.AsyncFor)) and n is not pl and n is not ql and n is not jl:
+                    tg = [n.target]
+                elif isinstance(n, (ast.With, ast.AsyncWith)):
+                    tg = [it.optional_vars for it in n.items if it.optional_vars is not None]
+                elif isinstance(n, ast.NamedExpr):
+                    tg = [n.target]
+                for t in tg:
+                    for x in ast.walk(t):
+                        if isinstance(x, ast.Name) and isinstance(x.ctx, ast.Store) and x.id in (pv, qv, jv):
+                            rebound.append(n)
+            ok = ok_nest and pid is not None and norm.is_name(pid, pv) and pr is not None and norm.U(pr) == f"{jv}.priority" and opsr == f"{jv}.ops" and not rebound
+            if rebound:
+                d = f"`{stmt_text(rebound[0])[:80]}` binds a loop variable ({pv}/{qv}/{jv}) again inside the pool loop: later jobs of the round are placed by the new value"
+            else:
+                d = (f"loops: `{stmt_text(pl)}` > `{stmt_text(ql)}` (source {qsrc}) > `{stmt_text(jl)}`; pool_id={norm.U(pid) if pid is not None else None}; "
+                     f"priority={norm.U(pr) if pr is not None else None}; ops={opsr}")
         ctx.ob(3, "K6", "a job taken from a queue of pool i is assigned to pool i, with the job's priority and the job's operators", ok, f, c, detail=d)
     # failed work is queued under the result's priority
     # (covered by queue_map: the chain on f.priority where f iterates failures)
